@@ -42,12 +42,19 @@ def run(ctx: Ctx):
     us = "{" + ", ".join(str(c) for c in sorted(set(uni + samples)) if c < 2 ** 31) + "}"
     ctx.model_check("StatusMapMC", "MC_StatusMap", constants={"UnifiedSamples": us},
                     invariants=("Total", "OkOnlyForSuccess", "PassThrough"), coverage=False, workers=4)
-    evs = [evaluate(f, c) for f, c in dom]
+    # the conversion is a pure function: the whole domain is swept several times in ONE process, in different orders (family order
+    # reversed, codes descending, shuffled), so that an answer that depends on what was converted before is exposed
+    orders = [list(dom), list(reversed(dom)), sorted(dom, key=lambda x: (x[1], x[0])), sorted(dom, key=lambda x: (-x[1], x[0] != "ezsp"))]
+    shuffled = list(dom)
+    ctx.rng.shuffle(shuffled)
+    orders.append(shuffled)
+    evs = [evaluate(f, c) for order in orders for f, c in order]
     traces = [evs[i:i + 64] for i in range(0, len(evs), 64)]
     ctx.evaluations = len(evs)
-    ctx.distinct_nontrivial = len(evs)
+    ctx.distinct_nontrivial = len(dom)
     ctx.rule = ("all 256 values of the legacy stack status family, all 256 of the serial-protocol status family, every defined unified "
-                "status and 68 undefined 32-bit samples (< 2^31, TLC integers); each (family, code) is a distinct case")
+                "status and 68 undefined 32-bit samples (< 2^31, TLC integers); each (family, code) is a distinct case; the domain is swept five times in "
+                "one process in different orders (history independence)")
     ctx.exhaustive = True
     ctx.add_sample(evs[0x93])
     ctx.add_sample(evs[256 + 0x35])
